@@ -90,6 +90,12 @@ class ContextAdjuster(ast.NodeTransformer):
     self._ctx_override = None
     return self.generic_visit(node)
 
+  def visit_NamedExpr(self, node):
+    # The target of an assignment expression is a store no matter where the
+    # expression itself is placed.
+    self._ctx_override = None
+    return self.generic_visit(node)
+
   def visit_Lambda(self, node):
     # We may be able to override some of these, but for now it's simpler
     # to just assert that they're set.
